@@ -753,7 +753,7 @@ func (state *RuntimeState) setNewAuthCookie(w http.ResponseWriter,
 	return cookieVal, nil
 }
 
-func (state *RuntimeState) updateAuthCookieAuthlevel(w http.ResponseWriter, r *http.Request, authlevel int) (string, error) {
+func (state *RuntimeState) updateAuthCookieAuthlevel(w http.ResponseWriter, r *http.Request, username string, authlevel int) (string, error) {
 	var authCookie *http.Cookie
 	for _, cookie := range r.Cookies() {
 		if cookie.Name != authCookieName {
@@ -765,8 +765,17 @@ func (state *RuntimeState) updateAuthCookieAuthlevel(w http.ResponseWriter, r *h
 		err := errors.New("cannot find authCookie")
 		return "", err
 	}
+	// The request may have been authenticated by something else than this
+	// cookie (a client certificate): only the session of the user whose factor
+	// was just verified may be upgraded.
+	cookieInfo, err := state.getAuthInfoFromAuthJWT(authCookie.Value)
+	if err != nil {
+		return "", err
+	}
+	if cookieInfo.Username != username {
+		return "", errors.New("authCookie does not belong to the authenticated user")
+	}
 
-	var err error
 	cookieVal, err := state.updateAuthJWTWithNewAuthLevel(authCookie.Value, authlevel)
 	if err != nil {
 		return "", err
